@@ -16,6 +16,11 @@ pub struct Pools {
     /// on-curve, not-in-subgroup encodings: (compressed, uncompressed)
     pub g1_nonsub: Vec<(Vec<u8>, Vec<u8>)>,
     pub g2_nonsub: Vec<(Vec<u8>, Vec<u8>)>,
+    /// uncompressed encodings of (u^2 x, u^3 y) for subgroup points (x, y): off the curve (they lie
+    /// on y^2 = x^3 + u^6 b) but of order r under the curve-independent Jacobian formulas - the
+    /// classic invalid-curve input that only an explicit on-curve check rejects
+    pub g1_twist: Vec<Vec<u8>>,
+    pub g2_twist: Vec<Vec<u8>>,
 }
 
 fn be32(v: u128) -> String {
@@ -122,7 +127,54 @@ pub fn pools() -> &'static Pools {
             }
             x += 1;
         }
-        Pools { pt_scalars, fr_vals, fq12_vals, g1_nonsub, g2_nonsub }
+        // invalid-curve points, built from public coordinates and the generic field API
+        let mut g1_twist = vec![];
+        let mut g2_twist = vec![];
+        for (u, a) in [(2u64, 1u64), (3, 5), (2, 7)] {
+            use ff_zeroize::{Field, PrimeField};
+            use pairing_plus::bls12_381::{Fq, Fq2, FqRepr, FrRepr, G1, G2};
+            use pairing_plus::CurveProjective;
+            let uf = Fq::from_repr(FqRepr::from(u)).unwrap();
+            let mut u2 = uf;
+            u2.square();
+            let mut u3 = u2;
+            u3.mul_assign(&uf);
+            let mut p1 = G1::one();
+            p1.mul_assign(FrRepr::from(a));
+            let p1 = p1.into_affine();
+            let (x, y) = p1.as_tuple();
+            let (mut xx, mut yy) = (*x, *y);
+            xx.mul_assign(&u2);
+            yy.mul_assign(&u3);
+            let mut e = vec![];
+            e.extend_from_slice(&fq_be(&xx));
+            e.extend_from_slice(&fq_be(&yy));
+            g1_twist.push(e);
+            let mut p2 = G2::one();
+            p2.mul_assign(FrRepr::from(a));
+            let p2 = p2.into_affine();
+            let (x, y) = p2.as_tuple();
+            let s2 = Fq2 { c0: u2, c1: Fq::zero() };
+            let s3 = Fq2 { c0: u3, c1: Fq::zero() };
+            let (mut xx, mut yy) = (*x, *y);
+            xx.mul_assign(&s2);
+            yy.mul_assign(&s3);
+            // coefficient order of the wire format (c1 before c0) is taken from a genuine encoding
+            let genuine = p2.into_uncompressed().as_ref().to_vec();
+            let c1_first = genuine[..48] == fq_be(&x.c1)[..];
+            let mut e = vec![];
+            for f in [&xx, &yy] {
+                if c1_first {
+                    e.extend_from_slice(&fq_be(&f.c1));
+                    e.extend_from_slice(&fq_be(&f.c0));
+                } else {
+                    e.extend_from_slice(&fq_be(&f.c0));
+                    e.extend_from_slice(&fq_be(&f.c1));
+                }
+            }
+            g2_twist.push(e);
+        }
+        Pools { pt_scalars, fr_vals, fq12_vals, g1_nonsub, g2_nonsub, g1_twist, g2_twist }
     })
 }
 
@@ -351,6 +403,14 @@ pub fn sweep(values_per_type: usize) -> (Vec<IoPlan>, Vec<(String, usize)>) {
                     for (cb, ub) in pool.iter() {
                         let mut p = single(ty, c, v, "nonsubgroup");
                         p.sfaults.push(SFault::Splice { off: 0, del: len, ins: if c { cb.clone() } else { ub.clone() }, label: "replace_nonsubgroup_point".into() });
+                        plans.push(p);
+                    }
+                }
+                if ty.is_point() && !c {
+                    let pool = if ty.is_g1() { &pools().g1_twist } else { &pools().g2_twist };
+                    for ub in pool.iter() {
+                        let mut p = single(ty, c, v, "invalid_curve");
+                        p.sfaults.push(SFault::Splice { off: 0, del: len, ins: ub.clone(), label: "replace_invalid_curve_point".into() });
                         plans.push(p);
                     }
                 }
@@ -583,6 +643,10 @@ pub fn gen_plan(seed: u64) -> IoPlan {
                         ins[0] = (ins[0] & 0x1f) | if r.c { 0x80 } else { 0 };
                     }
                     SFault::Splice { off: off + b * blk, del: blk, ins, label: format!("nonreduced_{}", name) }
+                }
+                8 if r.ty.is_point() && !r.c && rng.chance(1, 2) => {
+                    let pool = if r.ty.is_g1() { &p.g1_twist } else { &p.g2_twist };
+                    SFault::Splice { off, del: len, ins: rng.pick(pool).clone(), label: "replace_invalid_curve_point".into() }
                 }
                 8 if r.ty.is_point() => {
                     let pool = if r.ty.is_g1() { &p.g1_nonsub } else { &p.g2_nonsub };
